@@ -104,8 +104,9 @@ def bounds_text(tier):
     r = 3
     return (f'{r} requests over targets T0, T1 and tags a, b (' + ('five assignments' if tier == 'quick' else 'every assignment up to symmetry') + f'), issued at symbolic instants '
             f't0 <= t1 <= ... (equal instants allowed); maintainer capacity, per-(target, tag) duration, needed capacity '
-            f'(0 and more than the total included) and cost symbolic ints in [0, 10**6]; one variant issues a request from '
-            f'inside a start_work hook; every tie-break order')
+            f'(0 and more than the total included) and cost symbolic ints in [0, 10**6]; variants issue the last request from '
+            f'inside a start_work / end_work hook; one targeted class lets two orders arrive while a capacity-filling order is '
+            f'in progress (both startable in the scan at its end); every tie-break order')
 
 
 def required_goals(tier):
